@@ -249,11 +249,12 @@ def run(ctx):
         ood = 0
         for i in mism:
             sect, line, conf = meta[i]
-            if conf:
-                res.mismatches.append({"sect": sect, "line": line, "impl": impl(line, sect)})
-            else:
+            # the model is the translated regexes run by the Coq matcher: it must agree with read_header_line on EVERY line
+            # (C04_total_on_period_lines / C04_name_no_period are universal), conformant or not
+            res.mismatches.append({"sect": sect, "line": line, "impl": impl(line, sect), "conformant": conf})
+            if not conf:
                 ood += 1
-        res.extra["out_of_domain_model_impl_differences"] = ood
+        res.extra["nonconformant_model_impl_differences"] = ood
     else:
         res.corr_error = "model not built"
     res.cases = len(coq_cases)
